@@ -53,3 +53,7 @@ add("C06", "SEQ", "model_checking", "explicit-state BFS over push/delete/settle 
 add("C10", "SEQ", "model_checking", "explicit-state BFS over step-by-step histories on the directory store with three differential oracles (memory store mirror, memory-over-directory, restart) and a layout validator",
     "All histories up to the depth bound of step-by-step pushes (three digest algorithms), deletes, collection ticks at any point, cache expiry and restarts over repositories r, r/n and s, with a frozen clock and with 2 s per request; every request is mirrored to a memory store. In every distinct state each repository directory is validated as an OCI layout equal to the API state, and the read transcript is compared with the memory store, with a memory store layered over the directory, and with the directory store itself after Close + reopen.",
     TRUSTED, "DESIGN.md section 4 C10")
+
+add("C09", "CRASH", "fault_enumeration", "exhaustive crash-point and torn-write enumeration of filesystem histories through the os shim, recovery oracle after reopen",
+    "For every history up to length 2 / 3 over 12 single-request operations from four start states (plus longer scripts), every mutating filesystem call of the directory store is a crash point and every write is torn at three offsets; the directory left behind is reopened by a new server and must load, hold only blob files that hash to their names, resolve every tag to a complete image, and show either the state before or the state after the interrupted request on all read endpoints, with every earlier acknowledged request in effect.",
+    TRUSTED + " Process-crash model (no loss of un-synced pages).", "DESIGN.md section 4 C09")
